@@ -1,4 +1,5 @@
 import PydraModel.Argv.AssemblyLemmas
+import PydraModel.Argv.ParseLemmas
 /-
 C22 — Shell argument vector follows the documented field semantics.
 
@@ -44,6 +45,40 @@ theorem C22_commandArgs_partial (exe app : List Str) (fs : List Field) (vs : Lis
     (h26 : NoImplicitBelowExplicit (triples fs filled vs)) :
     runDef exe fs vs app = .ok (Spec.commandArgs exe fs vs app) :=
   runDef_eq_spec exe app fs vs filled hdef hlen hsafe h26
+
+/-! ### the argstr TEXT: `parseArgstr` ties what users write to the segment lists of the theorems -/
+
+/-- ROUND TRIP (FULL, every text the parser accepts): the parsed argstr keeps the raw text, `dots` is
+    `endswith("...")`, and the segments render back to the text with its `...` removed
+    (`argstr.replace("...", "")`, the string `_format_arg` works on). -/
+theorem C22_parse_roundtrip {raw : Str} {a : Argstr} (h : parseArgstr raw = .ok a) :
+    a.raw = raw ∧ a.dots = endsWithDots raw ∧ unparse a.segs = removeDots raw := parseArgstr_unparse h
+
+/-- FULL: "templated" on the segments is `"{" in argstr` on the text (so `SafeField.wf` always holds for parsed text) -/
+theorem C22_parse_wf {raw : Str} {a : Argstr} (h : parseArgstr raw = .ok a) :
+    a.raw.contains '{' = a.templated := parseArgstr_wf h
+
+/-- FULL: literal pieces are non-empty, brace-free pieces of the text; reference keys non-empty, brace-free -/
+theorem C22_parse_pieces {raw : Str} {a : Argstr} (h : parseArgstr raw = .ok a) :
+    (∀ l, Seg.lit l ∈ a.segs → l ≠ [] ∧ '{' ∉ l ∧ '}' ∉ l ∧ ∀ c ∈ l, c ∈ raw)
+    ∧ (∀ n, Seg.ref n ∈ a.segs → n ≠ [] ∧ '{' ∉ n ∧ '}' ∉ n) := parseArgstr_pieces h
+
+/-- FULL: brace-free text is accepted and is one literal piece -/
+theorem C22_parse_plain (raw : Str) (h1 : '{' ∉ raw) (h2 : '}' ∉ raw) :
+    parseArgstr raw = .ok ⟨raw, endsWithDots raw, if (removeDots raw).isEmpty then [] else [.lit (removeDots raw)]⟩ :=
+  parseArgstr_plain raw h1 h2
+
+/-- `C22_commandArgs_partial` stated on the argstr text users write: every set field's argstr is the
+    parse of a harmless text (`SafeFieldText`: plain characters, spaces and `{key}` references that resolve
+    to harmless values) — no assumption about segment lists is left. -/
+theorem C22_commandArgs_text_partial (exe app : List Str) (fs : List Field) (vs : List Value) (filled : List Int)
+    (hdef : definePositions (fs.map (·.position)) = .ok filled) (hlen : vs.length = fs.length)
+    (hsafe : ∀ t ∈ (triples fs filled vs).filter Triple.live,
+        ∃ raw a, t.1.argstr = some a ∧ SafeFieldText (Spec.envOfDef fs vs) t.1 raw a t.2.2)
+    (h26 : NoImplicitBelowExplicit (triples fs filled vs)) :
+    runDef exe fs vs app = .ok (Spec.commandArgs exe fs vs app) :=
+  runDef_eq_spec exe app fs vs filled hdef hlen
+    (fun t ht => by obtain ⟨raw, a, ha, hs⟩ := hsafe t ht; exact ⟨a, ha, hs.toSafeField⟩) h26
 
 /-- Order refinement alone (any payloads): slot filling followed by `position_sort` gives the documented
     order whenever no unpositioned field got a slot below an explicitly positioned one. -/
@@ -226,6 +261,13 @@ example : runDef ["exe".toList] [fldP, fldL, fldC] [sv "P", .many [.str "x".toLi
       intro h; exact absurd h (by decide)
   · exact ⟨_, rfl, by decide, by decide, by show SafeScalar _ ∧ SafeSegs _ _; exact ⟨by decide, by decide⟩,
       fun h => absurd h (by decide), by decide⟩
+
+/-- parsing concrete argstr texts (also with a format spec and a conversion) -/
+example : parseArgstr "--c={c}".toList = .ok ⟨"--c={c}".toList, false, [.lit "--c=".toList, .ref "c".toList]⟩ := by decide
+example : parseArgstr "-g {x:.2f} {y!r}...".toList
+    = .ok ⟨"-g {x:.2f} {y!r}...".toList, true, [.lit "-g ".toList, .ref "x:.2f".toList, .lit " ".toList, .ref "y!r".toList]⟩ := by
+  decide
+example : TextOK "--c={c} -x".toList := by decide
 
 /-- the docstring example of `position_sort`, and a list with pairwise different positions (hypothesis of `C22_order`) -/
 example : positionSort [(none, 'd'), (some (-3), 'e'), (some 2, 'b'), (some (-2), 'f'), (some 5, 'c'), (some 1, 'a')]
